@@ -38,6 +38,7 @@ import Driver.Suites.InfoDL
 import Driver.Suites.Magnet
 import Driver.Suites.Adopt
 import Driver.Suites.Picker
+import Driver.Suites.WsLoop
 /-! Table of suites known to the driver.  One line per suite (merge=union friendly). -/
 namespace Driver
 def registry : List Suite := [
@@ -88,5 +89,6 @@ def registry : List Suite := [
   Suites.Magnet.suite,
   Suites.Adopt.suite,
   Suites.Picker.suite,
+  Suites.WsLoop.suite,
 ]
 end Driver
